@@ -7,8 +7,8 @@ import tempfile
 from lib.core import *
 
 ID = "C11"
-PROPS_FILES = ["Gama/Props/C11.lean", "Gama/Props/C11Lang.lean", "Gama/Props/C11Values.lean"]
-LEAN_TARGETS = ["Gama.Props.C11", "Gama.Props.C11Lang", "Gama.Props.C11Values"]
+PROPS_FILES = ["Gama/Props/C11.lean", "Gama/Props/C11Lang.lean", "Gama/Props/C11Values.lean", "Gama/Props/C11Valid.lean"]
+LEAN_TARGETS = ["Gama.Props.C11", "Gama.Props.C11Lang", "Gama.Props.C11Values", "Gama.Props.C11Valid"]
 DRIVERS = ["drv_gkf"]
 
 LEVEL_TEXT = (
@@ -40,12 +40,20 @@ LEVEL_TEXT = (
     "length 4/5; oracle on gama-g3 inputs: a numeric leaf holding a non-number (incl. a number cut off at the end of the text) is refused with a "
     "located error; the diagnostic of every refused document must name the line of the event during which error() was first recorded "
     "(harness: whole chunk; gama-local: start tags spanning several lines).  "
+    "Round 7: validity of a GKF document is a decidable predicate of the document TREE with its real strings (Doc'.valid / Doc'.valuesOk, "
+    "Model/GkfDocTree.lean: required attributes, from inherited from <obs from=..>, x with y, positive distances, from != fs, band < dim, "
+    "dim of a <cov-mat> = number of observations of its cluster, number of covariance words = number of band elements; hand-written from "
+    "the xsd/manual) and every valid document with documented values is accepted (C11_valid_document_accepted: no hypothesis about the "
+    "parser's bookkeeping; only the positive-definiteness bit is an input); the hand rules are compared with the regenerated requiredVars / "
+    "requiredPairs / crossRules / effects / finishSpec tables in BOTH directions by decide, which also gives the refusal half (an element "
+    "breaking a documented rule is refused at its start tag, a dim mismatch at the cluster's closing tag); oracle on the implementation: "
+    "155 documents breaking exactly one documented rule must be refused naming that line.  "
     "Memory safety, termination and the located diagnostic of the real process are NOT "
     "proved: they are explored by running gama-local built with ASan+UBSan on grammar-derived, mutated and truncated inputs.")
 LEVEL_NOTE = (
     "Trusted: Lean kernel; statements in Props/C11.lean; the translator tools/gen/c11_gkf_automaton.py (validated by "
     "executing its output next to the C++ on every run); harness/c11_gkf.cpp; generators; the hand-written documented value table "
-    "Model/GkfDocValues.lean (from gama-local.xsd, read by no tool). In the value model the only abstract bit left is the positive-definiteness "
+    "Model/GkfDocValues.lean and the documented rule table docRules / Leaf'.count of Model/GkfDocTree.lean (from gama-local.xsd + manual, read by no tool). In the value model the only abstract bit left is the positive-definiteness "
     "verdict of finish_* (taken from the implementation's message in the correspondence); the older event stream with one bit per event is kept. expat, atof/atoi, iostream extraction, heap behaviour are outside the model.")
 TECHNIQUE = ("Lean 4 proof over a model regenerated from the source (translator) + model/implementation correspondence "
              "+ sanitizer-instrumented input search for the runtime clauses")
@@ -640,6 +648,85 @@ def value_docs(rng, n):
     return out
 
 
+# documented rules that are not about one value (Model/GkfDocTree.lean `docRules`, hand-written from gama-local.xsd + manual):
+# attributes an element must give (`from` of an observation may be inherited from <obs from=..>: not listed there)
+REQ_ATTRS = {"point": ["id"], "direction": ["to", "val"], "distance": ["to", "val"], "s-distance": ["to", "val"],
+             "z-angle": ["to", "val"], "azimuth": ["to", "val"], "angle": ["bs", "fs", "val"], "dh": ["from", "to", "val"],
+             "vec": ["from", "to", "dx", "dy", "dz"], "cov-mat": ["dim", "band"]}
+
+
+def rule_docs():
+    """documents that break exactly ONE documented rule (theorems C11_rule_violation_located / C11_dim_mismatch_located):
+    a required attribute absent or empty, `from` neither on the observation nor on <obs>, x without y, a non-positive distance,
+    `fs` = standpoint, band >= dim  -> refused naming the line of that element;  `dim` of <cov-mat> != number of observations of the
+    cluster (all four kinds), too few / too many covariance words -> refused naming the line of the cluster's closing tag.
+    Deterministic. -> list of (label, bytes, split, ("refuse", line, (what, detail), reason))"""
+    out = []
+
+    def line_of(text, needle):
+        pos = text.find(needle)
+        return text.count("\n", 0, pos) + 1 if pos >= 0 and text.count(needle) == 1 else None
+
+    def add(label, root, needle, what, reason):
+        text = doc_text(root)
+        ln = line_of(text, needle)
+        if ln is not None:
+            out.append((f"rule: {label}", text.encode("utf-8"), -1, ("refuse", ln, what, reason)))
+
+    for ci, (tag, attrs, wrap) in enumerate(value_contexts()):
+        for k in REQ_ATTRS.get(tag, []):
+            if k not in [a for a, _ in attrs]:
+                continue
+            for mode in ("absent", "empty"):
+                at = [(a, v) for a, v in attrs if a != k] if mode == "absent" else [(a, ("" if a == k else v)) for a, v in attrs]
+                el = El(tag, at)
+                ser_el = "<" + tag + "".join(f' {a}="{esc(v)}"' for a, v in at)
+                add(f"context {ci} <{tag}> required attribute {k} {mode}", wrap(el), ser_el, (k, "<" + mode + ">"),
+                    f"required attribute {k} is {mode}")
+    P = [El("point", [("id", "A"), ("x", "0"), ("y", "0"), ("z", "10")]), El("point", [("id", "B"), ("x", "100"), ("y", "0"), ("z", "12")]),
+         El("point", [("id", "C"), ("x", "0"), ("y", "100"), ("z", "14")])]
+
+    def docw(kids):
+        return El("gama-local", [("xmlns", XMLNS)], [El("network", [], [El("points-observations", [("direction-stdev", "10"),
+                  ("distance-stdev", "5")], [p.clone() for p in P] + kids)])])
+    one = [("no from on the observation nor on <obs>", El("distance", [("to", "B"), ("val", "100")]), [], "from", "<absent>"),
+           ("from=\"\" on the observation although <obs> has one", El("distance", [("from", ""), ("to", "B"), ("val", "100")]),
+            [("from", "A")], "from", ""),
+           ("direction in <obs> without from", El("direction", [("to", "B"), ("val", "10")]), [], "from", "<absent>"),
+           ("distance val=0", El("distance", [("to", "B"), ("val", "0")]), [("from", "A")], "val", "0"),
+           ("distance val=-5", El("distance", [("to", "B"), ("val", "-5")]), [("from", "A")], "val", "-5"),
+           ("s-distance val=-0.0", El("s-distance", [("to", "B"), ("val", "-0.0")]), [("from", "A")], "val", "-0.0"),
+           ("z-angle val=0", El("z-angle", [("to", "B"), ("val", "0")]), [("from", "A")], "val", "0"),
+           ("angle fs = standpoint", El("angle", [("bs", "B"), ("fs", " A "), ("val", "10")]), [("from", "A")], "fs", " A ")]
+    for lab, el, oa, k, v in one:
+        ser_el = "<" + el.tag + "".join(f' {a}="{esc(x)}"' for a, x in el.attrs)
+        add(lab, docw([El("obs", oa, [el])]), ser_el, (k, v), lab)
+    add("point x without y", docw([El("point", [("id", "D"), ("x", "1")])]), '<point id="D" x="1"', ("y", "<absent>"), "x without y")
+    add("point y without x", docw([El("point", [("id", "D"), ("y", "1")])]), '<point id="D" y="1"', ("x", "<absent>"), "y without x")
+    add("point with a blank id", docw([El("point", [("id", "  "), ("z", "1")])]), '<point id="  "', ("id", "  "), "blank point id")
+    add("point inside coordinates without coordinates", docw([El("coordinates", [], [El("point", [("id", "A")]),
+        El("cov-mat", [("dim", "1"), ("band", "0")], text="4")])]), '<point id="A"/>', ("x", "<absent>"), "neither xy nor z")
+    dist = lambda to: El("distance", [("to", to), ("val", "100")])
+    covm = lambda d, b, words: El("cov-mat", [("dim", str(d)), ("band", str(b))], text=" ".join(["4"] * words))
+    add("band = dim", docw([El("obs", [("from", "A")], [dist("B"), dist("C"), covm(2, 2, 3)])]), '<cov-mat dim="2" band="2"', ("band", "2"),
+        "band >= dim")
+    clusters = [("obs", [("from", "A")], lambda: [dist("B"), dist("C")], 2),
+                ("height-differences", [], lambda: [El("dh", [("from", "A"), ("to", "B"), ("val", "2")]),
+                                                     El("dh", [("from", "B"), ("to", "C"), ("val", "2")])], 2),
+                ("vectors", [], lambda: [El("vec", [("from", "A"), ("to", "B"), ("dx", "1"), ("dy", "2"), ("dz", "3")])], 3),
+                ("coordinates", [], lambda: [El("point", [("id", "A"), ("x", "1"), ("y", "2")]), El("point", [("id", "B"), ("z", "3")])], 3)]
+    for name, ca, kids, n in clusters:
+        for d in (n - 1, n + 1, 2 * n):
+            add(f"<{name}> with {n} observations, cov-mat dim={d}", docw([El(name, ca, kids() + [covm(d, 0, d)])]), f"</{name}>",
+                ("dim", str(d)), f"dim {d} differs from the number of observations {n}")
+        for w in (n - 1, n + 1):
+            add(f"<{name}> dim={n} band=0 with {w} covariance elements", docw([El(name, ca, kids() + [covm(n, 0, w)])]), f"</{name}>",
+                ("cov-mat", f"{w} elements"), f"{w} covariance elements where {n} are needed")
+    for name, ca, kids, n in clusters[2:]:
+        add(f"<{name}> without cov-mat", docw([El(name, ca, kids())]), f"</{name}>", ("cov-mat", "<absent>"), "cov-mat required")
+    return out
+
+
 # regression inputs with an expectation: file name -> ("refuse", line)
 CORPUS_EXPECT = {"point-without-id-reuses-previous.gkf": ("refuse", 7, ("id", "<absent>"))}
 EXPECT_LINE = {}          # sha(document) -> line the diagnostic of gama-local must name (filled by located_docs)
@@ -784,8 +871,14 @@ def run_docs(ctx, corr, exe, docs, stream):
             corr.count("value_docs_expect_refusal")
             want = f"O parser {expect[1]} -1"
             if O[0] != want:
-                corr.fail(f"attribute {expect[2][0]}={expect[2][1]!r} is outside the documented literal language/range but the answer is "
-                          f"{O[0]} instead of a refusal naming line {expect[1]} : {label}", payload, "GKFparser::process_*", "\n".join(out[-4:]))
+                why = (f"documented rule broken ({expect[3]})" if len(expect) > 3 else
+                       f"attribute {expect[2][0]}={expect[2][1]!r} is outside the documented literal language/range")
+                if len(expect) > 3:
+                    corr.count("rule_docs_expect_refusal")
+                corr.fail(f"{why} but the answer is "
+                          f"{O[0]} instead of a refusal naming line {expect[1]} : {label}", payload,
+                          "GKFparser::finish_*" if len(expect) > 3 and "</" in label + expect[3] + "cov-mat dim" and
+                          any(w in expect[3] for w in ("differs", "covariance elements", "cov-mat required")) else "GKFparser::process_*", "\n".join(out[-4:]))
 
 
 LIT_ALPHABET = b"019+-.eE x"
@@ -1449,6 +1542,9 @@ def _gkf_streams(ctx, corr, exe):
                 docs.append((f"allsplits mutated {j}: {what}", mb, k, None))
     vd = value_docs(rng, ctx.size(700, 15000))
     docs += vd
+    rd = rule_docs()
+    docs += rd
+    corr.count("rule_docs", len(rd))
     run_docs(ctx, corr, exe, docs, "events")
     ctx.log(f"event correspondence: {len(docs)} documents ({len(vd)} with attribute values from the literal languages and their complements)")
     n = run_literals(ctx, corr, exe)
